@@ -1175,7 +1175,7 @@ def c07(ctx):
     sel = [c for c in cases if c["id"] % (6 if quick else 2) == 0]
     ctx.replay("C07-file-vs-string", sel, ["filediff", "panic", "spans"], mode="both")
     edge = ctx.gen_cases("C09")
-    ctx.replay("C07-file-vs-string-edge", [c for c in edge if c["id"] % (3 if quick else 1) == 0], ["filediff", "panic"], mode="both")
+    ctx.replay("C07-file-vs-string-edge", edge, ["filediff", "panic"], mode="both")
 
 
 # ------------------------------------------------------------------- C08
